@@ -29,7 +29,7 @@ theorem C12_same_plan (A : Arch) (p₁ p₂ : Pres) (fdes : List Fde) (m : Modul
 the order of FDEs in the section. -/
 theorem C12_covering_fde_is_consulted (pres : Pres) (fdes : List Fde) (baseSvma rel : Nat)
     (hd : FdesDisjoint fdes) (hb : indexBuilds baseSvma fdes = true) (f : Fde) (hf : f ∈ fdes)
-    (hc : f.start ≤ baseSvma + rel ∧ baseSvma + rel < f.stop) :
+    (hc : f.start ≤ baseSvma + rel ∧ baseSvma + rel < f.stop) (hlt : baseSvma + rel < U64) :
     dwarfLookup pres fdes baseSvma rel =
       match f.rowFor (baseSvma + rel) with
       | some r => .row r
@@ -37,13 +37,14 @@ theorem C12_covering_fde_is_consulted (pres : Pres) (fdes : List Fde) (baseSvma 
   simp only [dwarfLookup, hb]
   rw [lookup_finds_covering_fde fdes hd f hf (baseSvma + rel) hc]
   simp only [Bool.not_true, Bool.false_eq_true, and_false, if_false]
+  rw [if_neg (by omega)]
   cases f.rowFor (baseSvma + rel) <;> rfl
 
 /-- Section order is irrelevant: permuting the FDEs does not change what is found. -/
 theorem C12_section_order_irrelevant (pres : Pres) (fdes fdes' : List Fde) (baseSvma rel : Nat)
     (hp : fdes.Perm fdes') (hd : FdesDisjoint fdes) (hb : indexBuilds baseSvma fdes = true)
     (f : Fde) (hf : f ∈ fdes)
-    (hc : f.start ≤ baseSvma + rel ∧ baseSvma + rel < f.stop) :
+    (hc : f.start ≤ baseSvma + rel ∧ baseSvma + rel < f.stop) (hlt : baseSvma + rel < U64) :
     dwarfLookup pres fdes baseSvma rel = dwarfLookup pres fdes' baseSvma rel := by
   have hd' : FdesDisjoint fdes' :=
     ⟨fun g hg => hd.1 g (hp.symm.subset hg),
@@ -51,18 +52,20 @@ theorem C12_section_order_irrelevant (pres : Pres) (fdes fdes' : List Fde) (base
   have hb' : indexBuilds baseSvma fdes' = true := by
     simp only [indexBuilds, List.all_eq_true] at *
     intro g hg; exact hb g (hp.symm.subset hg)
-  rw [C12_covering_fde_is_consulted pres fdes baseSvma rel hd hb f hf hc,
-    C12_covering_fde_is_consulted pres fdes' baseSvma rel hd' hb' f (hp.subset hf) hc]
+  rw [C12_covering_fde_is_consulted pres fdes baseSvma rel hd hb f hf hc hlt,
+    C12_covering_fde_is_consulted pres fdes' baseSvma rel hd' hb' f (hp.subset hf) hc hlt]
 
 /-- Addresses no FDE covers (gaps, before the first, after the last FDE) are treated the same
 way in all presentations: never a row — `uncovered` when the table is non-empty, a failed
 lookup when it is empty. -/
 theorem C12_uncovered_addresses (pres : Pres) (fdes : List Fde) (baseSvma rel : Nat)
     (hb : indexBuilds baseSvma fdes = true)
-    (hn : ∀ f ∈ fdes, ¬(f.start ≤ baseSvma + rel ∧ baseSvma + rel < f.stop)) :
+    (hn : ∀ f ∈ fdes, ¬(f.start ≤ baseSvma + rel ∧ baseSvma + rel < f.stop))
+    (hlt : baseSvma + rel < U64) :
     dwarfLookup pres fdes baseSvma rel = (if fdes = [] then .failed else .uncovered) := by
   have hcond : ¬ (pres ≠ Pres.hdr ∧ (!true) = true) := by simp
-  simp only [dwarfLookup, hb, hcond, if_false]
+  have hlt' : ¬ (U64 ≤ baseSvma + rel) := by omega
+  simp only [dwarfLookup, hb, hcond, if_false, hlt']
   cases hl : lastLE (baseSvma + rel) (sortByStart fdes) with
   | none =>
     have : fdes = [] := by
